@@ -224,6 +224,17 @@ def run_query(cfg, g, sr, q):
     if op == "locally_normalize":
         from genlm.grammar import locally_normalize
 
+        if q.get("late"):
+            # the same grammar built incrementally: the last `late` rules are added after the object has been inspected
+            k = int(q["late"])
+            pass
+            part = dict(g, rules=g["rules"][: len(g["rules"]) - k])
+            cfg = build(part, sr)
+            cfg.rhs
+            list(cfg.derivations(None, 2))
+            R, conv = wconv(sr)
+            for w, h, b in g["rules"][len(g["rules"]) - k:]:
+                cfg.add(conv(w), ntname(h), *[(tname(v) if kk == "T" else ntname(v)) for kk, v in b])
         ln = locally_normalize(cfg)
         heads = {}
         for r in ln.rules:
